@@ -218,6 +218,8 @@ func (r *kvRunner) apply(op kvOp) *vcommon.Violation {
 		}
 	case "scan":
 		return r.checkScan(op.N, op.M)
+	case "scanmid":
+		return r.checkScanMid(op.N, op.K)
 	default:
 		panic("unknown op " + op.Op)
 	}
@@ -423,6 +425,59 @@ func (r *kvRunner) checkScan(count int, match string) *vcommon.Violation {
 	return nil
 }
 
+// checkScanMid: a paged scan during which compaction runs to completion after a drawn number of pages. Compaction
+// does not change the contents, so every present key was present during the whole iteration and must be yielded at
+// least once (more than once is allowed here); nothing that is not present may be yielded.
+func (r *kvRunner) checkScanMid(count, after int) *vcommon.Violation {
+	if count <= 0 {
+		count = 2
+	}
+	seen := map[string]int{}
+	st := r.s.Stats()
+	bound := (st.Length+st.NumTables+int(r.s.coefficient)+4)*8 + 40
+	var cursor uint64
+	calls, compacted := 0, false
+	before := r.layout()
+	for {
+		var err error
+		cursor, err = r.s.Scan(cursor, count, func(e storage.Entry) bool { seen[e.Key()]++; return true })
+		calls++
+		if err != nil {
+			return r.fail("scan-error", "Scan(count=%d) with compaction between pages: %v", count, err)
+		}
+		if cursor == 0 {
+			break
+		}
+		if !compacted && calls > after {
+			compacted = true
+			tables := len(r.s.tables)
+			if v := r.compactAll(); v != nil {
+				return v
+			}
+			if len(r.s.tables) != tables || r.layout() != before {
+				r.labels["scan-compaction-between-pages"] = true
+			}
+		}
+		if calls > bound {
+			return r.fail("scan-no-termination", "Scan(count=%d) with compaction between pages did not finish within %d calls", count, bound)
+		}
+	}
+	present := map[string]bool{}
+	for k := range r.model {
+		key := r.c.Keys[k]
+		present[key] = true
+		if seen[key] == 0 {
+			return r.fail("scan-missing-during-compaction", "a scan (count=%d) during which compaction ran after page %d did not yield present key %q (tables before %s, after %s)", count, after+1, key, before, r.layout())
+		}
+	}
+	for key := range seen {
+		if !present[key] {
+			return r.fail("scan-ghost", "a scan (count=%d) with compaction between pages yielded key %q which is not present", count, key)
+		}
+	}
+	return nil
+}
+
 func (r *kvRunner) layout() string {
 	s := ""
 	for i, t := range r.s.tables {
@@ -608,7 +663,7 @@ func genKVCase(t *rapid.T, maxOps int, withScan bool) *kvCase {
 	nops := rapid.IntRange(1, maxOps).Draw(t, "nops")
 	kinds := []string{"put", "put", "put", "put", "putraw", "putraw", "del", "del", "ttl", "compact1", "compactall", "transfer", "transferdup"}
 	if withScan {
-		kinds = append(kinds, "scan", "scan", "scan")
+		kinds = append(kinds, "scan", "scan", "scan", "scanmid", "scanmid")
 	}
 	for i := 0; i < nops; i++ {
 		op := kvOp{Op: rapid.SampledFrom(kinds).Draw(t, "op")}
@@ -625,6 +680,9 @@ func genKVCase(t *rapid.T, maxOps int, withScan bool) *kvCase {
 		case "scan":
 			op.N = rapid.SampledFrom([]int{1, 2, 3, 10, 1000}).Draw(t, "count")
 			op.M = rapid.SampledFrom([]string{"", "", "^k", "d$", "a|b", ".", "^zzz$", "-"}).Draw(t, "match")
+		case "scanmid":
+			op.N = rapid.SampledFrom([]int{1, 1, 2}).Draw(t, "count")
+			op.K = rapid.IntRange(0, 3).Draw(t, "compactAfterPage")
 		}
 		c.Ops = append(c.Ops, op)
 	}
